@@ -1,6 +1,6 @@
 (* C17 — zapio.Writer logs exactly the lines of the byte stream, however it is chunked.
    Only statements closed by [exact]; the proofs are in C17/Proofs.v. *)
-From Coq Require Import List Bool.
+From Coq Require Import List Bool ZArith.
 From Coq.Strings Require Import Byte.
 Import ListNotations.
 From Zap Require Import Base.Wire C17.Model C17.Proofs.
@@ -37,6 +37,25 @@ Theorem C17_no_loss : forall ops, only_writes ops = true ->
 Proof. exact no_loss_thm. Qed.
 Print Assumptions C17_no_loss.
 
+(* the functions the driver runs on the harness' cases -- accumulator versions of
+   the model and of the oracle, able to judge lines of a megabyte -- are the
+   reference model and the reference oracle, on every input and every observation *)
+Theorem C17_model_fast : forall i, model i = model_ref i.
+Proof. exact model_fast_thm. Qed.
+Print Assumptions C17_model_fast.
+
+Theorem C17_spec_fast : forall i o, spec i o = spec_ref i o.
+Proof. exact spec_fast_thm. Qed.
+Print Assumptions C17_spec_fast.
+
+(* the oracle is the property: it accepts an observation iff the messages are the
+   lines of the flattened stream and every Write returned len(p) *)
+Theorem C17_spec_is_lines : forall i o, spec i o =
+  (sx_eqb (sx_nth o 0) (of_blist (lines (fst (dec_case i)) [] (flatten (snd (dec_case i))))) &&
+   sx_eqb (sx_nth o 1) (SL (map of_nat (write_lens (snd (dec_case i)))))).
+Proof. exact spec_is_lines. Qed.
+Print Assumptions C17_spec_is_lines.
+
 Theorem C17_wire : forall i, spec i (model i) = true.
 Proof. exact spec_model. Qed.
 Print Assumptions C17_wire.
@@ -44,4 +63,12 @@ Print Assumptions C17_wire.
 (* non-vacuity / sanity: "a\n\nb" "" "c\n" "d" Close  ->  a, "", bc, d *)
 Example C17_example :
   messages true [W [x61; x0a; x0a; x62]; W []; W [x63; x0a]; W [x64]; S_] = [[x61]; []; [x62; x63]; [x64]].
+Proof. vm_compute. reflexivity. Qed.
+
+(* the accumulator versions compute (not only provably equal): a 300-byte line cut in
+   three, its terminator sharing a chunk with the head of the next line *)
+Example C17_example_fast :
+  let a := repeat x61 100 in
+  model (SL [SZ 1%Z; SL [SL [SZ 0%Z; SB a]; SL [SZ 0%Z; SB a]; SL [SZ 0%Z; SB (a ++ [x0a; x62])]; SL [SZ 0%Z; SB [x63; x0a]]; SL [SZ 1%Z]]])
+  = SL [SL [SB (a ++ a ++ a); SB [x62; x63]]; SL [SZ 100%Z; SZ 100%Z; SZ 102%Z; SZ 2%Z]].
 Proof. vm_compute. reflexivity. Qed.
